@@ -173,6 +173,13 @@ def build_proto_iface(kt, m):
                 s.AddType(mn, t, d)
         sobj[sn] = s
         itf.AddStruct(s)
+    for en, lits in m.get("enums", []):
+        e = kt.Enum(en)
+        for ln, lv in lits:
+            e.Add(ln, lv)
+        itf.AddEnum(e)
+    for dn, dv in m.get("defines", []):
+        itf.AddHashDefine(dn, dv)
     for mn, mid, mem in m["msgs"]:
         msg = kt.Message(mn, mid)
         for fn, t, d in mem:
